@@ -9,7 +9,7 @@ RANGE = {'u8': (0, 255), 'i8': (-128, 127), 'u16': (0, 65535), 'i16': (-32768, 3
          'usize': (0, 2 ** 64 - 1), 'isize': (-2 ** 63, 2 ** 63 - 1),
          # no repr: the enum's discriminants are isize, from_repr takes usize: the common range
          None: (0, 2 ** 63 - 1)}
-KINDS = [('unit', []), ('tuple', ['u8']), ('named', ['i32', 'String']), ('unit', []), ('tuple', ['bool', 'u16'])]
+KINDS = [('unit', []), ('tuple', ['u8']), ('named', ['i32', 'String']), ('unit', []), ('tuple', ['bool', 'u16']), ('tuple', []), ('named', [])]
 
 
 def layouts(repr_, n):
@@ -58,7 +58,7 @@ def make_enum(eid, name, n, repr_, layout_name, layout, placement, unit_only, de
         v.dis = bool(pl(i, n))
         e.variants.append(v)
     if generics in ('ty', 'where'):
-        tv = [v for v in e.variants if v.kind == 'tuple']
+        tv = [v for v in e.variants if v.kind == 'tuple' and v.ftypes]
         if tv:
             tv[0].ftypes[0] = 'T'
         else:
